@@ -82,6 +82,7 @@ def discover():
                         "stubs": stubs,
                         "timeout": int(meta.get("timeout", ["300"])[0]),
                         "jobs": int(meta.get("jobs", ["16"])[0]),
+                        "cbmc": " ".join(meta.get("cbmc", [])),
                         "expect": meta.get("expect", ["pass"])[0],
                     }
                     out.append(h)
@@ -166,7 +167,7 @@ def run_property(prop, tier, seed):
     hs = [h for h in allh if prop in h["props"] and h["tier"] in tiers]
     only = os.environ.get("VERIF_ONLY_ENGINE")  # development aid: run one engine's share of the property
     if only:
-        hs = [h for h in hs if h["engine"] == only]
+        hs = [h for h in hs if h["engine"] in only.split(",")]
     thorough_only = [h for h in allh if prop in h["props"] and h["tier"] == "thorough"]
     if not hs:
         log(f"no harness serves {prop}")
